@@ -44,6 +44,25 @@ pub fn make(kind: &str, path: &str) -> Outcome<Box<dyn Adapter>> {
     })
 }
 
+/// The same backends constructed through `adapter::get_adapter(url)`
+pub fn make_by_url(kind: &str, path: &str) -> Outcome<Box<dyn Adapter>> {
+    let wrap = if kind.ends_with("+flate") {
+        "+flate"
+    } else if kind.ends_with("+brotli") {
+        "+brotli"
+    } else {
+        ""
+    };
+    let url = match kind.split('+').next().unwrap() {
+        "mem" => format!("memory{}://", wrap),
+        "fs" => format!("file{}://{}", wrap, path),
+        "sqlite" => format!("sqlite{}://{}.db", wrap, path),
+        "sqlitemem" => format!("sqlite{}::memory:", wrap),
+        _ => String::new(),
+    };
+    guard(move || melda::adapter::get_adapter(&url))
+}
+
 pub fn cleanup(path: &str) {
     let _ = std::fs::remove_dir_all(path);
     let _ = std::fs::remove_file(format!("{}.db", path));
@@ -88,13 +107,17 @@ pub fn contract_case(seed: u64, case: u64, kind: &str, tmp: &str, nops: usize) -
     let mut r = Rng::derive(seed, case, 0xC17);
     let path = format!("{}/c17_{}_{}_{}", tmp, kind.replace('+', "_"), seed, case);
     cleanup(&path);
-    let mut ad = match make(kind, &path) {
+    // every other case constructs the backend through its URL (adapter::get_adapter)
+    let by_url = (case / 12) % 2 == 1;
+    let open = |k: &str, p: &str| if by_url { make_by_url(k, p) } else { make(k, p) };
+    let mut ad = match open(kind, &path) {
         Outcome::Ok(a) => a,
         o => {
-            res.viol("C17", "backend-open-failed", format!("{}: {}", kind, o.describe()));
+            res.viol("C17", &format!("backend-open-failed-{}{}", kind.replace('+', "-"), if by_url { "-by-url" } else { "" }), format!("{}: {}", kind, o.describe()));
             return res;
         }
     };
+    res.features.insert("by_url".into(), by_url as u64);
     let mut model: BTreeMap<String, Vec<u8>> = BTreeMap::new();
     let mut reopens = 0u64;
     macro_rules! bad {
@@ -220,7 +243,7 @@ pub fn contract_case(seed: u64, case: u64, kind: &str, tmp: &str, nops: usize) -
                 if persistent(kind) {
                     drop(ad);
                     res.trace.push("drop and reopen".into());
-                    ad = match make(kind, &path) {
+                    ad = match open(kind, &path) {
                         Outcome::Ok(a) => a,
                         o => {
                             bad!("reopen-failed", format!("step {}: {}", step, o.describe()));
